@@ -25,8 +25,13 @@ MODES = ("async", "inline", "thread")
 
 
 class _Ctx:
-    def __init__(self) -> None:
+    def __init__(self, input_kwargs: Optional[Dict[str, Any]] = None) -> None:
         self.completes: List[Tuple[str, Any]] = []
+        self.starts: List[str] = []
+        self.input_kwargs = input_kwargs or {}
+
+    async def emit_on_node_start(self, node_id: str) -> None:
+        self.starts.append(node_id)
 
     async def emit_on_node_complete(self, node_id: str, error: Any) -> None:
         self.completes.append((node_id, error))
@@ -34,8 +39,11 @@ class _Ctx:
 
 class _Dag:
     def __init__(self, node_map: Dict[str, Any]) -> None:
+        import networkx as nx
+
         self.node_map = node_map
-        self.graph = None
+        self.graph = nx.DiGraph()
+        self.graph.add_node("n")
         self.input_node = "n"
         self.output_node = "n"
 
@@ -111,7 +119,7 @@ def make_unit(max_attempts_idx: int = 5, base_exc: bool = False, slots: int = 4)
                 if use_default:
                     ns["use_default"] = True
                 cls = type("N", (ProcessorBase,), ns)
-                ctx = _Ctx()
+                ctx = _Ctx({"x": arg})
                 mgr = DAGRunConcurrentManager(dag=_Dag({"n": cls}), ctx=ctx)
 
             def duration_of() -> Any:
@@ -119,8 +127,11 @@ def make_unit(max_attempts_idx: int = 5, base_exc: bool = False, slots: int = 4)
                 return dur
 
             loop.duration_of = duration_of
-            meth = getattr(mgr, "_DAGRunConcurrentManager__execute_node")
-            kind, payload = loop.run_to_verdict(meth(node_id="n", x=arg))
+            # driven through _execute_node (processed mark, events, kwargs of the input node = the caller's dict), which
+            # calls the retry loop __execute_node; a stub sub-dag object carries the one flag _execute_node reads
+            import types as _types
+
+            kind, payload = loop.run_to_verdict(mgr._execute_node(dag=_types.SimpleNamespace(is_oneof=False), node_id="n"))
             t_end = loop.time()
             loop.shutdown()
 
@@ -173,8 +184,9 @@ def make_unit(max_attempts_idx: int = 5, base_exc: bool = False, slots: int = 4)
                         if not V.same(starts[i + 1][2], ends[i][2] + eff_delay):
                             label = "delay_between_attempts"
                             break
-                if label is None and len(ctx.completes) != exp_calls - 1:
-                    label = "complete_events_for_failed_attempts:%d!=%d" % (len(ctx.completes), exp_calls - 1)
+                want_completes = exp_calls - 1 if (exp[0] == "raise" and exp[1] is NodeBaseExc) else exp_calls
+                if label is None and len(ctx.completes) != want_completes:
+                    label = "complete_events:%d!=%d" % (len(ctx.completes), want_completes)
             goals = ["exp_" + exp[0], "calls:%d" % exp_calls, "mode:" + mode]
             if exp_calls > 1:
                 goals.append("retried")
@@ -191,11 +203,11 @@ def make_unit(max_attempts_idx: int = 5, base_exc: bool = False, slots: int = 4)
 
 
 UNIT_DOC = {
-    "template": "unit: DAGRunConcurrentManager.__execute_node with stub ctx, one-entry node_map",
+    "template": "unit: DAGRunConcurrentManager._execute_node -> __execute_node with stub ctx, one-node graph and node_map",
     "symbolic": ["attempts in {None,0,1,2,3}", "delay in {None} U [0,5]", "exceptions in {None,(E1),(E1,E2),(E2),(Exception)}",
                  "use_default", "mode in {async,inline,thread}", "4 per-attempt outcomes in {ok,E1,E2}(+BaseException)",
                  "argument value in [-100,100]", "body duration in [0,3]"],
-    "functions": ["ml_pipeline_engine/dag/manager.py::DAGRunConcurrentManager.__execute_node",
+    "functions": ["ml_pipeline_engine/dag/manager.py::DAGRunConcurrentManager._execute_node, __execute_node, _get_node_kwargs",
                   "ml_pipeline_engine/node/retrying.py::NodeRetryPolicy.delay/attempts/exceptions",
                   "ml_pipeline_engine/node/node.py::run_node, run_node_default, get_callable_run_method",
                   "ml_pipeline_engine/module_loading.py::get_instance"],
@@ -277,3 +289,7 @@ register(Job("C12", "unit_policy_passthrough", make_policy(), tier="quick", budg
                   "bounds": "delay <= 100 s; float modelled by CrossHair/z3",
                   "assumptions": ["the engine harness uses integer virtual time, so fractional delays are checked here, at the "
                                   "policy that hands the delay to asyncio.sleep, and the sleep itself with integer delays"]}))
+
+register(Job("C12", "rec_retry_inside", engine_harness(C.rec_retry_inside, _c12_engine), tier="quick", budget_s=400,
+             parts=auto_parts(C.rec_retry_inside()), goals=("reiterated",),
+             doc=doc("rec_retry_inside: a retrying node inside a recurrent subgraph (attempts per iteration)", SYMS)))
